@@ -284,7 +284,9 @@ def one_case(run, C, T, TP, q, tname, sides, cl, cr, stats):
     gc_ = _res_canon(got[1])
     stats["evaluated"] = stats.get("evaluated", 0) + 1
     if gc_ != refc:
-        run.violation("%s: result %s differs from the uncut run %s" % (tag, _short(gc_), _short(refc)), case)
+        # known finding D207: a numpy ufunc over two operands that BOTH lost their divisions at the cut (index shuffle on both sides)
+        fid = "D207" if (case.get("tail") == "ufunc" and case.get("sides") == "both" and case.get("cut_left") == "delayed-unknown-divisions" and case.get("cut_right") == "delayed-unknown-divisions") else None
+        run.violation("%s: result %s differs from the uncut run %s" % (tag, _short(gc_), _short(refc)), case, finding=fid)
         return
     if hasattr(final, "_meta") and hasattr(r[1], "_meta"):
         mm = meta_mismatch(final._meta, r[1]._meta) if type(final._meta) is type(r[1]._meta) else "container kind differs"
